@@ -122,13 +122,27 @@ def mirror_rule(chk, db):
         for f in db.by_q.get(rq + "::operator()", []):
             n += 1
             chk.instance("MIRROR")
-            fold = [x for x in astx.all_exprs(f) if x.get("k") == "fold"]
+            # the fold may live in a private helper of the mapping that operator() calls
+            bodies = [f]
+            for x in astx.all_exprs(f, into_lambdas=True):
+                if x.get("k") == "call" and astx.callee(x)[0]:
+                    for g in db.by_q.get(rq + "::" + astx.callee(x)[0], []):
+                        if g is not f and g.get("body") is not None and g not in bodies and g["n"] not in ("stride", "extents", "required_span_size"):
+                            bodies.append(g)
+            fold = [x for g in bodies for x in astx.all_exprs(g, into_lambdas=True) if x.get("k") == "fold"]
             ok = False
+            seen_stride_fold = False
             for fo in fold:
                 pat = fo.get("l") if fo.get("l") is not None and fo["l"].get("k") != "int" else fo.get("r")
                 txt = astx.show(pat, 200) if pat else ""
+                if "stride(" in txt.replace(" ", ""):
+                    seen_stride_fold = True
                 if fo["op"] == "+" and "*" in txt and "stride(Is)" in txt.replace(" ", "") and "indices" in txt:
                     ok = True
+            if not ok and not seen_stride_fold:
+                chk.obligation("MIRROR", astx.sig(f), None)
+                chk.unknown_instance("MIRROR", astx.sig(f), "no fold over stride() found in operator() or the helpers it calls")
+                continue
             chk.obligation("MIRROR", astx.sig(f), ok)
             if not ok:
                 chk.violation("MIRROR", astx.sig(f), "not-index-times-stride", "%s: operator() is not the fold (indices * stride(Is) + ...)" % astx.loc(f),
@@ -613,6 +627,7 @@ def transpose_extents_rule(chk, db):
 META_EXTRA = "DYNSLOT (dynamic-extent slots selected by the type's own pattern; bulk copies only for rank_dynamic() values; two-arity constructors establish the arity); TRANSP / TRANSP-EXT (transposed stride and extents evaluated per case); PARAM."
 META = (META[0] + " " + META_EXTRA, META[1])
 META = (META[0] + " SIB; MAPPED (every element access takes its offset from the mapping); DYNSLOT (c) no direct read of another extents object's slot array.", META[1])
+META = (META[0] + ' FULLPROD (total sizes multiply all rank() extents).', META[1])
 
 
 def run(chk, tier):
